@@ -227,7 +227,8 @@ struct Obs {
     pending: Option<u64>,
     pexp: Option<String>,
     fz: bool,
-    rua: u64,
+    /// `royalty_updated_at`; None = the item does not exist (pre-3.1.0 storage layout)
+    rua: Option<u64>,
     creator: u64,
     desc: (u64, u64),
     img: u64,
@@ -287,7 +288,7 @@ impl Obs {
             self.fm as u8,
             self.ue as u8,
             self.ver,
-            self.rua,
+            fmt_opt(&self.rua),
             fmt_opt(&self.stt),
             dash(toksx, ";"),
             dash(ops, ","),
@@ -419,7 +420,7 @@ impl World {
             o.pexp = own.pending_expiry.as_ref().map(exp_back);
             let c = sg721_base::Sg721Contract::<cw721_base::Extension>::default();
             o.fz = c.frozen_collection_info.load(&*st).expect("frozen_collection_info");
-            o.rua = c.royalty_updated_at.load(&*st).expect("royalty_updated_at").nanos();
+            o.rua = c.royalty_updated_at.may_load(&*st).expect("royalty_updated_at").map(|t| t.nanos());
             for r in c.parent.operators.range(&*st, None, None, Order::Ascending) {
                 let ((ow, op), e) = r.expect("operators entry");
                 o.ops.push((nm.id(ow.as_str()), nm.id(op.as_str()), exp_back(&e)));
@@ -882,6 +883,8 @@ struct S {
     last: Option<Last>,
     blk: (u64, u64),
     g: Ghost,
+    /// this case saw an ACCEPTED migration of a collection in the faithful pre-3.1.0 layout (no `royalty_updated_at`)
+    old_layout_migrated: bool,
     panics: u64,
 }
 
@@ -906,7 +909,7 @@ fn parse_ver(s: &str) -> Option<(u64, u64, u64)> {
 
 impl S {
     fn new(sf: Surface) -> S {
-        S { kind: "base".into(), literal: false, w: World::new(), sf, log: vec![], cur: None, last: None, blk: (1, 1), g: Ghost::default(), panics: 0 }
+        S { kind: "base".into(), literal: false, w: World::new(), sf, log: vec![], cur: None, last: None, blk: (1, 1), g: Ghost::default(), old_layout_migrated: false, panics: 0 }
     }
 
     fn info_json(&self, line: &str, with_stt: bool) -> Value {
@@ -981,6 +984,10 @@ impl S {
                 let (name, _) = self.w.cw2().expect("cw2 record");
                 let mut st = self.w.app.contract_storage_mut(&c);
                 cw2::set_contract_version(&mut *st, name, v).expect("set cw2 version");
+                if kv(line, "drop") == Some("1") {
+                    // faithful layout of a release below 3.1.0: the item `upgrades::v3_1_0` creates does not exist yet
+                    sg721_base::Sg721Contract::<cw721_base::Extension>::default().royalty_updated_at.remove(&mut *st);
+                }
                 Some(true)
             }
             _ => self.run_msg(op, line),
@@ -1103,7 +1110,12 @@ impl S {
             ("freeze", true) => m("freeze-ok"),
             ("freeze", false) if s != Some(b.creator) => m("freeze-non-creator-rejected"),
             ("uci", true) => m("uci-ok"),
-            ("uci", false) if b.fz && s == Some(b.creator) => m("uci-after-freeze-rejected"),
+            ("uci", false) if b.fz && s == Some(b.creator) => {
+                m("uci-after-freeze-rejected");
+                if self.old_layout_migrated {
+                    m("uci-rejected-after-old-layout-migrate");
+                }
+            }
             ("uci", false) if !b.fz && s != Some(b.creator) => m("uci-non-creator-rejected"),
             ("own_transfer", true) => m("handover-proposed"),
             ("own_accept", true) => m("handover-accepted"),
@@ -1111,7 +1123,12 @@ impl S {
             ("own_accept", false) if b.pending.is_some() && s != b.pending => m("accept-not-proposed-rejected"),
             ("own_renounce", true) => m("renounce-ok"),
             ("utm", true) => m("utm-ok"),
-            ("utm", false) if b.fm && s == Some(b.creator) && tok_b.is_some() => m("utm-after-freeze-rejected"),
+            ("utm", false) if b.fm && s == Some(b.creator) && tok_b.is_some() => {
+                m("utm-after-freeze-rejected");
+                if self.old_layout_migrated {
+                    m("utm-rejected-after-old-layout-migrate");
+                }
+            }
             ("utm", false) if !b.fm && b.ue && s != Some(b.creator) && tok_b.is_some() => m("utm-non-creator-rejected"),
             ("freeze_meta", true) => m("freeze-meta-ok"),
             ("migrate", true) => {
@@ -1121,6 +1138,15 @@ impl S {
                 }
                 if b.fz {
                     m("migrate-ok-with-frozen-info");
+                }
+                if b.rua.is_none() {
+                    m("migrate-ok-old-layout");
+                    if b.fz {
+                        m("migrate-ok-old-layout-frozen-info");
+                    }
+                    if b.fm {
+                        m("migrate-ok-old-layout-frozen-metadata");
+                    }
                 }
                 if parse_ver(&b.ver).map(|v| v < (3, 1, 0)).unwrap_or(false) {
                     m("migrate-ok-from-below-3.1.0");
@@ -1150,6 +1176,7 @@ impl Sut for S {
         self.last = None;
         self.blk = (1, 1);
         self.g = Ghost::default();
+        self.old_layout_migrated = false;
         (header.to_string(), "case".to_string())
     }
 
@@ -1192,6 +1219,9 @@ impl Sut for S {
             model_line.push_str(&format!(" racc={racc_w}"));
         }
         let after = self.w.observe();
+        if op == "migrate" && ok && before.as_ref().map(|b| b.rua.is_none()).unwrap_or(false) {
+            self.old_layout_migrated = true;
+        }
         self.cur = after.clone();
         self.last = Some(Last { line: line.to_string(), op, ok, before, after: after.clone(), blk: self.blk });
         let res = if ok { "ok" } else { "err" };
@@ -1580,7 +1610,9 @@ impl G {
         let mut cands_t: Vec<u64> = vec![];
         let mut cands_h: Vec<u64> = vec![];
         if let Some(o) = o {
-            cands_t.push(o.rua + DAY_NS);
+            if let Some(r) = o.rua {
+                cands_t.push(r + DAY_NS);
+            }
             let mut exps: Vec<String> = o.toks.iter().flat_map(|t| t.approvals.iter().map(|x| x.1.clone())).collect();
             exps.extend(o.ops.iter().map(|x| x.2.clone()));
             if let Some(e) = &o.pexp {
@@ -1803,7 +1835,10 @@ impl G {
         } else {
             // chain-level: stored version of an older release / migrate to one of the four codes
             if self.rng.chance(1, 2) {
-                (format!("setver v={}", self.rng.pick(&VERSIONS)), "admin")
+                let v = *self.rng.pick(&VERSIONS);
+                // below 3.1.0: half of the time in the faithful layout (no `royalty_updated_at` item)
+                let drop = parse_ver(v).map(|x| x < (3, 1, 0)).unwrap_or(false) && self.rng.chance(1, 2);
+                (format!("setver v={v}{}", if drop { " drop=1" } else { "" }), "admin")
             } else {
                 let to = if self.rng.chance(2, 3) { "updatable" } else { *self.rng.pick(&KINDS) };
                 (format!("migrate to={to}"), "admin")
@@ -1894,7 +1929,8 @@ fn random_case(ses: &mut Session, sut: &mut S, g: &mut G, kind: &str, n_ops: u64
         }
         let Some(o) = sut.cur.clone() else { break };
         if old_release && i == 1 {
-            stepm(ses, sut, &format!("setver v={}", g.rng.pick(&["3.0.5", "3.1.0", "3.15.0"])));
+            let v = *g.rng.pick(&["3.0.5", "3.0.5", "3.1.0", "3.15.0"]);
+            stepm(ses, sut, &format!("setver v={v}{}", if v == "3.0.5" && g.rng.chance(2, 3) { " drop=1" } else { "" }));
             continue;
         }
         if migrate_early && i == 3 {
@@ -1910,7 +1946,9 @@ fn random_case(ses: &mut Session, sut: &mut S, g: &mut G, kind: &str, n_ops: u64
             continue;
         }
         if upgrade_mid && i == n_ops / 2 {
-            stepm(ses, sut, &format!("setver v={}", g.rng.pick(&["3.15.0", "3.1.0", "3.0.5", "3.0.0"])));
+            let v = *g.rng.pick(&["3.15.0", "3.1.0", "3.0.5", "3.0.0"]);
+            let drop = (v == "3.0.5" || v == "3.0.0") && g.rng.chance(2, 3);
+            stepm(ses, sut, &format!("setver v={v}{}", if drop { " drop=1" } else { "" }));
             stepm(ses, sut, &format!("migrate to={kind}"));
             continue;
         }
@@ -1944,6 +1982,7 @@ fn exhaustive(ses: &mut Session, sut: &mut S, kind: &str, depth: usize) {
         "freeze_meta s=10 funds=-".into(),
         "block h=102 t=1700000100000000000".into(),
         "setver v=3.0.5".into(),
+        "setver v=3.0.5 drop=1".into(),
         "migrate to=updatable".into(),
     ];
     let n = alphabet.len();
@@ -2268,6 +2307,62 @@ fn scripted(ses: &mut Session, sut: &mut S) {
         format!("mint s={STUB_A} funds=- id=2 owner=20 uri=1 ext=0"),
     ];
     run_lines(ses, sut, &lines);
+    // 7b. THE FAITHFUL OLD COLLECTION: written by a release below 3.1.0, i.e. stored version < 3.1.0 AND no `royalty_updated_at`
+    //     item (`setver … drop=1`). Both freezes first, then the upgrade that creates the item, then the creator tries again.
+    //     Judged by the ghost freeze monitors (`migrate/unfrozen`, `…/info-changed`, `migrate/meta-unfrozen`, `…/frozen-uri-changed`).
+    for kind in ["base", "updatable"] {
+        for v in ["3.0.5", "3.0.0"] {
+            let lines: Vec<String> = vec![
+                format!("case kind={kind} scripted old-layout-upgrade v={v}"),
+                format!("block h=100 t={t0}"),
+                format!("inst s={STUB_A} funds=- minter={STUB_A} creator=10 desc=1:40 image=0 ext=7 ec=0 stt=- roy=40:{}", 5 * p),
+                format!("mint s={STUB_A} funds=- id=1 owner=20 uri=1 ext=0"),
+                "utm s=10 funds=- id=1 uri=31".into(),
+                "freeze_meta s=10 funds=-".into(),
+                "freeze s=10 funds=-".into(),
+                format!("setver v={v} drop=1"),
+                // the item is absent: a royalty change cannot even be evaluated; a plain update is refused because frozen
+                format!("uci s=10 funds=- direct=0 desc=- image=- ext=- ec=- roy=41:{} creator=-", 4 * p),
+                "uci s=10 funds=- direct=0 desc=5:10 image=- ext=- ec=- roy=- creator=-".into(),
+                format!("block h=101 t={}", t0 + 3 * day),
+                "migrate to=updatable".into(),
+                "uci s=10 funds=- direct=0 desc=5:10 image=- ext=- ec=1 roy=- creator=-".into(),
+                format!("uci s=10 funds=- direct=0 desc=- image=- ext=- ec=- roy=41:{} creator=-", 4 * p),
+                "utm s=10 funds=- id=1 uri=38".into(),
+                "freeze s=10 funds=-".into(),
+                "freeze_meta s=10 funds=-".into(),
+                // a second upgrade of the now-updatable collection, again from the old layout
+                format!("setver v={v} drop=1"),
+                format!("block h=102 t={}", t0 + 5 * day),
+                "migrate to=updatable".into(),
+                "uci s=10 funds=- direct=0 desc=5:10 image=- ext=- ec=1 roy=- creator=-".into(),
+                "utm s=10 funds=- id=1 uri=39".into(),
+                // item absent but stored version >= 3.1.0 (not a layout any release wrote; the upgrade does not run, the item stays absent)
+                "setver v=3.1.0 drop=1".into(),
+                "migrate to=updatable".into(),
+                format!("uci s=10 funds=- direct=0 desc=- image=- ext=- ec=- roy=41:{} creator=-", 4 * p),
+                "uci s=10 funds=- direct=0 desc=5:10 image=- ext=- ec=1 roy=- creator=-".into(),
+                "utm s=10 funds=- id=1 uri=40".into(),
+                format!("mint s={STUB_A} funds=- id=2 owner=21 uri=2 ext=0"),
+            ];
+            run_lines(ses, sut, &lines);
+        }
+        // the same without the freezes: the upgrade must not freeze or change anything either, and a royalty change works again afterwards
+        let lines: Vec<String> = vec![
+            format!("case kind={kind} scripted old-layout-upgrade unfrozen"),
+            format!("block h=100 t={t0}"),
+            format!("inst s={STUB_A} funds=- minter={STUB_A} creator=10 desc=1:40 image=0 ext=7 ec=0 stt=- roy=40:{}", 5 * p),
+            format!("mint s={STUB_A} funds=- id=1 owner=20 uri=1 ext=0"),
+            "setver v=3.0.5 drop=1".into(),
+            format!("block h=101 t={}", t0 + 3 * day),
+            format!("uci s=10 funds=- direct=0 desc=- image=- ext=- ec=- roy=41:{} creator=-", 4 * p),
+            "migrate to=updatable".into(),
+            format!("uci s=10 funds=- direct=0 desc=- image=- ext=- ec=- roy=41:{} creator=-", 4 * p),
+            "uci s=10 funds=- direct=0 desc=5:10 image=- ext=- ec=1 roy=- creator=-".into(),
+            "freeze s=10 funds=-".into(),
+        ];
+        run_lines(ses, sut, &lines);
+    }
     // 8. more tokens than one page of AllTokens (default 10, explicit 100): count = number of existing tokens
     for kind in ["base", "nt"] {
         let mut lines: Vec<String> = vec![
@@ -2360,11 +2455,21 @@ fn main() {
     for c in ["migrate-ok", "migrate-ok-with-frozen-info", "migrate-ok-from-below-3.1.0", "more-than-100-tokens"] {
         ses.require(format!("req:base:{c}"));
     }
+    // the faithful old-layout histories: freeze(s) -> setver <3.1.0 with the item removed -> accepted migrate -> creator's update refused
+    for c in ["migrate-ok-old-layout", "migrate-ok-old-layout-frozen-info"] {
+        ses.require(format!("req:base:{c}"));
+    }
+    for c in [
+        "migrate-ok-old-layout", "migrate-ok-old-layout-frozen-info", "migrate-ok-old-layout-frozen-metadata", "uci-rejected-after-old-layout-migrate",
+        "utm-rejected-after-old-layout-migrate",
+    ] {
+        ses.require(format!("req:updatable:{c}"));
+    }
     ses.require("req:onchain:migrate-upgrade-ok");
     ses.require("req:nt:transfer-by-owner-rejected");
     ses.require("req:nt:more-than-100-tokens");
     ses.note(format!(
-        "4 collections x (scripted boundary scenarios incl. upgrades from older stored versions, {per_kind} random histories of 30-90 messages, every message sequence of length {depth} over a 21-line alphabet); contract panics (Extension todo!(), minus_seconds underflow) caught: {}",
+        "4 collections x (scripted boundary scenarios incl. upgrades from older stored versions, {per_kind} random histories of 30-90 messages, every message sequence of length {depth} over a 22-line alphabet); contract panics (Extension todo!(), minus_seconds underflow) caught: {}",
         sut.panics
     ));
     ses.note("senders: minter stubs (forwarding sub-messages), creators, holders, approved spenders, operators, pending owner, strangers; clock steps to expiry/24h instants -1/0/+1; zero-amount coins are not generated (cw-multi-test bank drops them)");
